@@ -56,7 +56,7 @@ def do_import(src, sid, prop):
             if os.path.exists(os.path.join(src, f)):
                 shutil.copy(os.path.join(src, f), dst)
         notes = open(os.path.join(src, "notes.md")).read() if os.path.exists(os.path.join(src, "notes.md")) else ""
-        meta = {"id": sid, "breaks": prop, "origin": "independent sub-agent given only the property text and a scratch worktree",
+        meta = {"id": sid, "breaks": prop, "origin": os.environ.get("SEED_ORIGIN", "independent sub-agent given only the property text and a scratch worktree"),
                 "needs_to_manifest": notes.strip()[:1200],
                 "confirmed": {"applies_to": subprocess.run(["git", "-C", REPO, "rev-parse", "--short", "HEAD"], capture_output=True, text=True).stdout.strip(),
                               "test_suite": tail, "demo_unchanged_rc": rc_clean, "demo_changed_rc": rc_mut,
